@@ -5,6 +5,9 @@ package run_test
 // C05 - a distributed query reads every shard exactly once or fails. DESIGN.md section 4, C05.
 
 import (
+	"io"
+	"net/url"
+	"net/http"
 	"github.com/influxdata/influxdb/services/meta"
 	"fmt"
 	"os"
@@ -30,7 +33,7 @@ func TestVerifC05DistributedQuery(t *testing.T) {
 	defer stats.Flush()
 	cl, err := vkSharedCluster()
 	if err != nil {
-		t.Fatalf("cluster: %v", err)
+		vkSetupFailed(t, "cluster: %v", err)
 	}
 	rapid.Check(t, func(rt *rapid.T) {
 		vkCaseSeq++
@@ -38,7 +41,7 @@ func TestVerifC05DistributedQuery(t *testing.T) {
 		rf := rapid.IntRange(1, 3).Draw(rt, "rf")
 		groups := rapid.IntRange(2, 6).Draw(rt, "groups")
 		if err := cl.createDB(db, rf, time.Hour); err != nil {
-			rt.Fatalf("createDB: %v", err)
+			vkSetupFailed(rt, "createDB: %v", err)
 		}
 		defer cl.dropDB(db)
 		// reset faults of a previous case
@@ -52,6 +55,11 @@ func TestVerifC05DistributedQuery(t *testing.T) {
 		var sumV float64
 		var sumU uint64
 		base := int64(1600000000) - int64(1600000000)%3600
+		twoMeasurements := rapid.Bool().Draw(rt, "twoMeasurements")
+		nm := 1
+		if twoMeasurements {
+			nm = 2
+		}
 		for g := 0; g < groups; g++ {
 			k := rapid.IntRange(1, 6).Draw(rt, "pointsInGroup")
 			for i := 0; i < k; i++ {
@@ -63,6 +71,12 @@ func TestVerifC05DistributedQuery(t *testing.T) {
 				ptTimes = append(ptTimes, base+int64(g)*3600+int64(i))
 				pts = append(pts, models.MustNewPoint("m", models.NewTags(map[string]string{"h": fmt.Sprintf("g%di%d", g, i)}),
 					models.Fields{"v": v, "u": u}, time.Unix(base+int64(g)*3600+int64(i), 0)))
+				if twoMeasurements {
+					// the twin in a second measurement: statements with two sources must read every shard once per source
+					ptTimes = append(ptTimes, base+int64(g)*3600+int64(i))
+					pts = append(pts, models.MustNewPoint("n", models.NewTags(map[string]string{"h": fmt.Sprintf("g%di%d", g, i)}),
+						models.Fields{"v": v + 1000, "u": u}, time.Unix(base+int64(g)*3600+int64(i), 0)))
+				}
 			}
 		}
 		wnode := rapid.IntRange(0, 2).Draw(rt, "writeNode")
@@ -81,24 +95,59 @@ func TestVerifC05DistributedQuery(t *testing.T) {
 				first = append(first, p)
 			}
 		}
-		if err := cl.write(wnode, db, first); err != nil {
-			rt.Fatalf("write at consistency all with every node up failed: %v", err)
+		if err := cl.writeAllUp(wnode, db, first); err != nil {
+			vkSetupFailed(rt, "write at consistency all with every node up failed: %v", err)
 		}
 		if len(second) > 0 {
 			if err := cl.nodes[0].srv.MetaClient.UpdateRetentionPolicy(db, "rp", &meta.RetentionPolicyUpdate{ReplicaN: &rf2}, false); err != nil {
-				rt.Fatalf("harness: alter retention policy: %v", err)
+				vkSetupFailed(rt, "alter retention policy: %v", err)
 			}
 			if err := cl.syncMeta(); err != nil {
-				rt.Fatalf("harness: %v", err)
+				vkSetupFailed(rt, "%v", err)
 			}
-			if err := cl.write(wnode, db, second); err != nil {
-				rt.Fatalf("write at consistency all with every node up failed: %v", err)
+			if err := cl.writeAllUp(wnode, db, second); err != nil {
+				vkSetupFailed(rt, "write at consistency all with every node up failed: %v", err)
 			}
 		}
 		if err := cl.syncMeta(); err != nil {
-			rt.Fatalf("harness: %v", err)
+			vkSetupFailed(rt, "%v", err)
 		}
 		coord := rapid.IntRange(0, 2).Draw(rt, "coordinator")
+		// ownership layouts produced by remove-shard: the coordinating node gives up its copy of every shard that
+		// has another owner (through the meta node's /remove-shard, as influxd-ctl does), so that it owns no
+		// shard of replicated groups and everything it needs is remote
+		stripped := 0
+		if rapid.IntRange(0, 2).Draw(rt, "stripCoordinator") == 0 {
+			for id, os := range cl.shardOwners(db) {
+				mine := false
+				for _, o := range os {
+					if o == cl.nodes[coord].id {
+						mine = true
+					}
+				}
+				if !mine || len(os) < 2 {
+					continue
+				}
+				// an owner creates its local shard lazily at the first write; remove-shard refuses an owner whose
+				// copy does not exist yet ("shard not found"), so make sure it does (what the write path would do)
+				if err := cl.nodes[coord].srv.TSDBStore.CreateShard(db, "rp", id, true); err != nil {
+					vkSetupFailed(rt, "CreateShard %d: %v", id, err)
+				}
+				resp, err := http.PostForm("http://"+cl.metaAddr+"/remove-shard", url.Values{"src": {cl.nodes[coord].proxy.addr()}, "shard": {fmt.Sprint(id)}})
+				if err != nil {
+					vkSetupFailed(rt, "POST /remove-shard: %v", err)
+				}
+				body, _ := io.ReadAll(resp.Body)
+				resp.Body.Close()
+				if resp.StatusCode/100 != 2 {
+					vkSetupFailed(rt, "remove-shard %d from node %d: %s %s", id, cl.nodes[coord].id, resp.Status, body)
+				}
+				stripped++
+			}
+			if err := cl.syncMeta(); err != nil {
+				vkSetupFailed(rt, "%v", err)
+			}
+		}
 		stmts := []vkStmt{
 			{"count", "SELECT count(v) FROM m", func(r vkResult) string { return vkWantContains(r, fmt.Sprintf(" %d]", total)) }},
 			{"sum", "SELECT sum(v) FROM m", func(r vkResult) string { return vkWantContains(r, fmt.Sprintf(" %v]", sumV)) }},
@@ -109,9 +158,30 @@ func TestVerifC05DistributedQuery(t *testing.T) {
 			{"countByTag", "SELECT count(v) FROM m GROUP BY h", func(r vkResult) string { return vkWantSeries(r, total) }},
 			{"showMeasurements", "SHOW MEASUREMENTS", func(r vkResult) string { return vkWantContains(r, "[m]") }},
 			{"showTagKeys", "SHOW TAG KEYS", func(r vkResult) string { return vkWantContains(r, "[h]") }},
-			{"showTagValues", "SHOW TAG VALUES WITH KEY = h", func(r vkResult) string { return vkWantRows(r, total) }},
+			{"showTagValues", "SHOW TAG VALUES WITH KEY = h", func(r vkResult) string { return vkWantRows(r, nm*total) }},
 			{"showFieldKeys", "SHOW FIELD KEYS", func(r vkResult) string { return vkWantContains(r, "[v float]") }},
-			{"showSeries", "SHOW SERIES", func(r vkResult) string { return vkWantRows(r, total) }},
+			{"showSeries", "SHOW SERIES", func(r vkResult) string { return vkWantRows(r, nm*total) }},
+		}
+		if twoMeasurements {
+			wantBoth := func(n int) func(r vkResult) string {
+				return func(r vkResult) string {
+					if len(r.Rows) != 2 {
+						return fmt.Sprintf("expected one series per measurement, got %d", len(r.Rows))
+					}
+					for _, row := range r.Rows {
+						if !strings.Contains(row, fmt.Sprintf(" %d]", n)) {
+							return fmt.Sprintf("expected every measurement to count %d", n)
+						}
+					}
+					return ""
+				}
+			}
+			stmts = append(stmts,
+				vkStmt{"countTwoSources", "SELECT count(v) FROM m, n", wantBoth(total)},
+				vkStmt{"countTwoSources", "SELECT count(u) FROM n, m", wantBoth(total)},
+				vkStmt{"rawTwoSources", "SELECT v FROM m, n", func(r vkResult) string { return vkWantRows(r, 2*total) }},
+				vkStmt{"countSubqueries", "SELECT count(v) FROM (SELECT v FROM m), (SELECT v FROM n)", wantBoth(total)},
+			)
 		}
 		boundLo, boundHi := int64(-1<<62), int64(1<<62) // range (seconds) of the bounded statements
 		// time-bounded statements whose bound is exactly the first (or last) nanosecond of a shard group: the
@@ -157,7 +227,25 @@ func TestVerifC05DistributedQuery(t *testing.T) {
 			default:
 				boundLo, boundHi = T, T
 			}
+			n /= nm // ptTimes holds one entry per measurement
 			cond := fmt.Sprintf("time %s %ds", op, T)
+			if twoMeasurements {
+				nn := n
+				stmts = append(stmts, vkStmt{"countTwoSourcesBounded", "SELECT count(v) FROM m, n WHERE " + cond, func(r vkResult) string {
+					if nn == 0 {
+						return vkWantSeries(r, 0)
+					}
+					if len(r.Rows) != 2 {
+						return fmt.Sprintf("expected one series per measurement, got %d", len(r.Rows))
+					}
+					for _, row := range r.Rows {
+						if !strings.Contains(row, fmt.Sprintf(" %d]", nn)) {
+							return fmt.Sprintf("expected every measurement to count %d", nn)
+						}
+					}
+					return ""
+				}})
+			}
 			wantCount := func(r vkResult) string {
 				if n == 0 {
 					return vkWantSeries(r, 0)
@@ -269,7 +357,18 @@ func TestVerifC05DistributedQuery(t *testing.T) {
 			}
 		}
 		servable := true
-		anyGood := false
+		anyGood := false    // some in-range shard that holds a point has a reachable owner
+		localKnows := false // the coordinating node itself holds an in-range shard that knows the field
+		knows := func(nd *vkNode, id uint64) bool {
+			if sh := nd.srv.TSDBStore.Shard(id); sh != nil {
+				if eng, err := sh.Engine(); err == nil {
+					if mf := eng.MeasurementFieldSet().Fields([]byte("m")); mf != nil && mf.Field("v") != nil {
+						return true
+					}
+				}
+			}
+			return false
+		}
 		for id, os := range owners {
 			if !inRange[id] {
 				continue
@@ -282,12 +381,10 @@ func TestVerifC05DistributedQuery(t *testing.T) {
 					}
 					if i == coord || faults[i].Kind == "up" || (faults[i].Kind == "delay" && faults[i].Delay < time.Second) {
 						good = true
-						// does this reachable owner know the field (has the shard seen a point)?
-						if sh := nd.srv.TSDBStore.Shard(id); sh != nil {
-							if eng, err := sh.Engine(); err == nil {
-								if mf := eng.MeasurementFieldSet().Fields([]byte("m")); mf != nil && mf.Field("v") != nil {
-									anyGood = true
-								}
+						if knows(nd, id) {
+							anyGood = true
+							if i == coord {
+								localKnows = true
 							}
 						}
 					}
@@ -295,6 +392,12 @@ func TestVerifC05DistributedQuery(t *testing.T) {
 			}
 			if !good {
 				servable = false
+			}
+		}
+		anyFault := false
+		for _, f := range faults {
+			if f.Kind != "up" {
+				anyFault = true
 			}
 		}
 		listing := st.Kind == "showMeasurements" || st.Kind == "showTagKeys" || st.Kind == "showTagValues"
@@ -305,10 +408,15 @@ func TestVerifC05DistributedQuery(t *testing.T) {
 			// known finding show-listing-ignores-node-errors: excluded from the main campaign
 			stats.Exclude("show-listing-ignores-node-errors")
 			outcome = "excluded-known"
-		} else if rf1.String() != r0.String() && len(rf1.Rows) == 0 && !anyGood && !strings.HasPrefix(st.Kind, "show") {
-			// known finding maptype-rpc-failure-yields-empty-result: no node that can be reached knows the
-			// field (every shard of the time range that holds a point has only failing owners), the field type stays unknown
-			// and the SELECT is empty instead of failing. Excluded from the main campaign (directed test below).
+		} else if rf1.String() != r0.String() && len(rf1.Rows) == 0 && ((!anyGood && !strings.HasPrefix(st.Kind, "show")) || (!localKnows && anyFault && !listing)) {
+			// known finding maptype-rpc-failure-yields-empty-result: field types (MapType / FieldDimensions) have no
+			// error path. (a) No node that can be reached knows the field (every shard of the time range that holds a
+			// point has only failing owners): the type stays unknown and the SELECT is empty instead of failing.
+			// (b) The coordinating node holds no shard that knows the field (it owns nothing in range, e.g. after
+			// remove-shard), so the type depends on remote answers alone: a node that refuses, is cut, or whose shards
+			// are disabled (tsdb.Shards.MapType turns the shard error into "unknown") leaves the type unknown, no
+			// iterator is created at all, and SELECT / SHOW SERIES / SHOW FIELD KEYS return an empty result and no
+			// error - even when another owner is alive. Excluded from the main campaign (directed test below).
 			stats.Exclude("maptype-rpc-failure-yields-empty-result")
 			outcome = "excluded-known"
 		} else if rf1.String() != r0.String() {
@@ -319,7 +427,7 @@ func TestVerifC05DistributedQuery(t *testing.T) {
 			rt.Fatalf("%s %q on node %d failed (%s) although every shard has an owner that is up and answering; faults %v, rf=%d, owners %v",
 				verifkit.Sig("no-failover-to-live-owner"), st.Text, coord, rf1.Err, fkinds, rf, owners)
 		}
-		cls := []string{"stmt:" + st.Kind, "outcome:" + outcome, fmt.Sprintf("rf:%d", rf), fmt.Sprintf("mixedRF:%v", len(second) > 0)}
+		cls := []string{"stmt:" + st.Kind, "outcome:" + outcome, fmt.Sprintf("rf:%d", rf), fmt.Sprintf("mixedRF:%v", len(second) > 0), fmt.Sprintf("coordinatorStripped:%v", stripped > 0), fmt.Sprintf("twoMeasurements:%v", twoMeasurements)}
 		for _, f := range faults {
 			cls = append(cls, "fault:"+f.Kind)
 		}
@@ -369,7 +477,7 @@ func TestVerifC05KFShowListing(t *testing.T) {
 	defer stats.Flush()
 	cl, err := vkSharedCluster()
 	if err != nil {
-		t.Fatalf("cluster: %v", err)
+		vkSetupFailed(t, "cluster: %v", err)
 	}
 	db := fmt.Sprintf("c05kf_%d", os.Getpid())
 	if err := cl.createDB(db, 1, time.Hour); err != nil {
@@ -404,7 +512,7 @@ func TestVerifC05KFStreamCutAtFrameBoundary(t *testing.T) {
 	defer stats.Flush()
 	cl, err := vkSharedCluster()
 	if err != nil {
-		t.Fatalf("cluster: %v", err)
+		vkSetupFailed(t, "cluster: %v", err)
 	}
 	db := fmt.Sprintf("c05kfb_%d", os.Getpid())
 	if err := cl.createDB(db, 1, time.Hour); err != nil {
